@@ -70,8 +70,19 @@ func blocksOf(b []byte) [][]byte {
 // mutateWritten derives the written content from the signed content.
 func mutateWritten(rt *rapid.T, s []byte) ([]byte, string) {
 	sb := blocksOf(s)
-	switch rapid.IntRange(0, 9).Draw(rt, "mutation") {
+	switch rapid.IntRange(0, 11).Draw(rt, "mutation") {
 	case 0, 1:
+		return s, "equal"
+	case 10, 11:
+		// the signed content without its first k blocks: every block is a signed block, one
+		// position too early
+		if len(sb) > 1 {
+			k := rapid.IntRange(1, len(sb)-1).Draw(rt, "suffixfrom")
+			if rapid.Bool().Draw(rt, "suffixlast") {
+				k = len(sb) - 1
+			}
+			return s[k*BlockSize:], fmt.Sprintf("the signed content from block %d on", k)
+		}
 		return s, "equal"
 	case 2:
 		if len(sb) > 1 {
@@ -376,6 +387,15 @@ func TestC18(t *testing.T) {
 				off = end
 			}
 			cerr := w.Close()
+			if rapid.Bool().Draw(rt, "closeagain") {
+				// the usual "defer w.Close()" after an explicit Close: whatever the first Close refused
+				// stays refused, whatever it delivered is not delivered again
+				if p := Recover(func() { w.Close() }); p != "" {
+					Violation(rt, "C18/second-close-panic", "a second Close of an error-mode writer panicked: %s (%s)", p, setup)
+					return
+				}
+				Ev.Probe("writer_closed_twice")
+			}
 			if firstBad < 0 {
 				if failErr != nil || cerr != nil {
 					Violation(rt, "C18/good-data-rejected", "content equal to the signed content (or a block-aligned prefix) was rejected: write err %v, close err %v (%s)", failErr, cerr, setup)
